@@ -63,6 +63,11 @@ def inject(rng, ch, node, kind, is_root, scn_hooks):
         st["rules"] = ([["ALLOW", "*"]], rng.choice([[["REQUIRE", "absent-file"]],
                                                      [["ALLOW", "*"], ["REQUIRE", "absent-file"]],
                                                      [["CREATE", "*"], ["MODIFY", "*"], ["ALLOW", "*"], ["require", "absent-file"]]]))
+        if node.inspections and rng.random() < 0.5:
+            # ... in a rule list that also refers to an inspection of the layout (which has not run, and must not run
+            # before this list has been checked): such a reference matches nothing
+            ref = ["MATCH", "*", "WITH", rng.choice(["PRODUCTS", "MATERIALS"]), "FROM", rng.choice(node.inspections)["name"]]
+            st["rules"] = (st["rules"][0], [ref] + st["rules"][1])
     elif kind == "unloadable_link":
         scn_hooks.append(("unloadable", node))
     return True
